@@ -97,3 +97,40 @@ Fixpoint run2 (h : heap) (a b : rowobj) (ops : list (bool * roop)) : heap * rowo
 Fixpoint run1 (h : heap) (a : rowobj) (ops : list roop) : heap * rowobj :=
   match ops with [] => (h, a) | o :: r => let '(h', a') := ro_step h a o in run1 h' a' r end.
 Definition side (s : bool) (ops : list (bool * roop)) : list roop := map snd (filter (fun p => Bool.eqb (fst p) s) ops).
+
+(* ---- the object kinds without shared mutable state: Cell, Column, a generic Element, and a Table at layer B (whose maps a
+        clone recomputes into new list objects, C10_table_clone).  Element.clone deep-copies the lxml node (disjoint subtree:
+        trusted) and builds a new wrapper; x / y are immutable integers copied by value.  The state of such an object is a plain
+        value, a call is a function of that value alone: the pair (original, clone) is a product. ---- *)
+Record cellobj := { co_run : nat * cell; co_x : option Z; co_y : option Z }.
+Inductive coop := CoSetValue (v : Z) | CoSetStyle (st : Z) | CoSetRepeated (n : nat) | CoClear.
+Definition co_step (c : cellobj) (o : coop) : cellobj :=
+  match o with
+  | CoSetValue v => {| co_run := (fst (co_run c), (v, snd (snd (co_run c)))); co_x := co_x c; co_y := co_y c |}
+  | CoSetStyle st => {| co_run := (fst (co_run c), (fst (snd (co_run c)), st)); co_x := co_x c; co_y := co_y c |}
+  | CoSetRepeated n => {| co_run := (Nat.max 1 n, snd (co_run c)); co_x := co_x c; co_y := co_y c |}
+  | CoClear => {| co_run := (1%nat, empty_cell); co_x := co_x c; co_y := co_y c |}
+  end.
+Definition co_clone (c : cellobj) : cellobj := {| co_run := co_run c; co_x := co_x c; co_y := co_y c |}.   (* Cell.clone: x and y copied *)
+Record colobj := { ko_run : nat * Z; ko_x : option Z }.
+Inductive koop := KoSetStyle (st : Z) | KoSetRepeated (n : nat).
+Definition ko_step (c : colobj) (o : koop) : colobj :=
+  match o with
+  | KoSetStyle st => {| ko_run := (fst (ko_run c), st); ko_x := ko_x c |}
+  | KoSetRepeated n => {| ko_run := (Nat.max 1 n, snd (ko_run c)); ko_x := ko_x c |}
+  end.
+Definition ko_clone (c : colobj) : colobj := {| ko_run := ko_run c; ko_x := ko_x c |}.
+
+(* twin histories on a pair of objects whose calls are functions of the object alone *)
+Section Product.
+Variables (S Op : Type) (step : S -> Op -> S).
+Fixpoint prun2 (a b : S) (ops : list (bool * Op)) : S * S :=
+  match ops with
+  | [] => (a, b)
+  | (true, o) :: r => prun2 (step a o) b r
+  | (false, o) :: r => prun2 a (step b o) r
+  end.
+Definition prun1 (a : S) (ops : list Op) : S := fold_left step ops a.
+Definition pside (s : bool) (ops : list (bool * Op)) : list Op := map snd (filter (fun p => Bool.eqb (fst p) s) ops).
+End Product.
+Arguments prun2 {S Op}. Arguments prun1 {S Op}. Arguments pside {Op}.
